@@ -226,6 +226,29 @@ def run(tier, res, force_search=False):
     probes.debiasers_finite(rng, n_deb, res, problems_all)
     probes.leap_day_windows(rng, res, problems_all)
 
+    # ---- thorough: exhaustive enumeration of (first day, last day, step) on the real centre function (supporting test)
+    if tier == "thorough":
+        from ibicus.utils import RunningWindowOverDaysOfYear
+
+        n_enum = 0
+        with warnings.catch_warnings():
+            warnings.simplefilter("ignore")
+            for S in range(1, 34, 2):
+                w = RunningWindowOverDaysOfYear(window_length_in_days=max(S, 33), window_step_length_in_days=S)
+                hS = S // 2
+                for mn in range(1, 367):
+                    for mx in range(mn, 367):
+                        cs = w._get_window_centers(np.array([mn, mx]))
+                        n_enum += 1
+                        # blocks [c-h, c+h] must tile [mn, mx]: consecutive centres S apart, first block reaches mn, last reaches mx
+                        ok = cs.size > 0 and cs[0] - hS <= mn and cs[-1] + hS >= mx and (np.diff(cs) == S).all() and cs[0] >= mn - hS + 0 and cs[-1] <= mx
+                        if not ok:
+                            problems_all.append((f"days {mn}..{mx}, step {S}: centres {cs[:3].tolist()}..{cs[-3:].tolist()} do not tile the span exactly once",
+                                                 {"what": "RunningWindowOverDaysOfYear/enumeration", "mn": mn, "mx": mx, "S": S}))
+                            break
+        res.extra["exhaustive_enumeration"] = {"cases": n_enum, "space": "all 1<=mn<=mx<=366, odd S<=33", "exhaustive": True}
+        res.cov["evaluations"] += n_enum
+
     # ---- verdict
     seen = set()
     for p, case in problems_all:
